@@ -80,7 +80,8 @@ pub struct SorterCfg {
     pub block_size: Option<usize>,
     pub interval: Option<usize>,
     pub index_levels: Option<u8>,
-    /// 0 = CursorVec, 1 = TempFileChunk, 2 = tracked in-memory chunks (instrumented)
+    /// 0 = CursorVec, 1 = TempFileChunk, 2 = tracked in-memory chunks (instrumented), 3 = chunks
+    /// that accept and serve transfers in short, interrupted pieces
     pub creator: u8,
     /// apply the settings on the builder BEFORE `.chunk_creator(..)` replaces the creator type
     /// (the builder is rebuilt by that call and must carry every setting over)
@@ -209,6 +210,19 @@ impl ChunkCreator for TrackedCreator {
     }
 }
 
+/// Chunks that are scheduled in-memory files (see vlib::sio).
+pub struct ScheduledCreator {
+    pub ctl: vlib::sio::CtlRef,
+}
+
+impl ChunkCreator for ScheduledCreator {
+    type Chunk = vlib::sio::SFile;
+    type Error = Infallible;
+    fn create(&self) -> Result<vlib::sio::SFile, Infallible> {
+        Ok(vlib::sio::SFile::new(&self.ctl))
+    }
+}
+
 #[derive(Clone, Copy, Debug, Serialize, Deserialize, PartialEq, Eq)]
 pub enum Extraction {
     Stream,
@@ -268,6 +282,11 @@ pub fn run_sorter(cfg: &SorterCfg, inserts: &[Entry], how: Extraction) -> Result
             }
             1 => {
                 feed(builder_with(cfg, TempFileChunk).build(), inserts, how)
+            }
+            3 => {
+                // chunk storage that accepts and serves transfers in short, interrupted pieces
+                let ctl = vlib::sio::Ctl::new(vlib::sio::Policy::Alternate);
+                feed(builder_with(cfg, ScheduledCreator { ctl }).build(), inserts, how)
             }
             _ => {
                 feed(builder_with(cfg, TrackedCreator::default()).build(), inserts, how)
